@@ -251,6 +251,36 @@ def r4_apply(a, tier):
             rep.fail(ap.qualname, f'apply:{fmt!r}:{stored!r}:{enabled}', f'apply("ab", fmt={fmt!r}) on a style with stored spec {stored!r}, colour '
                      f'{"on" if enabled else "off"}: visible output {stripped!r}, required {want_text!r} (the text formatted by the '
                      f'explicit spec, else by the stored one)', ap.loc)
+    # the formatting protocol: format(style, spec) / f'{style:spec}' / str(style) go through apply() ONCE, on the text
+    fm, sm = a.p.func(f'{STYLE}.__format__'), a.p.func(f'{STYLE}.__str__')
+    for spec, stored, enabled, fg in itertools.product(['', '>6', '*^8'], [None, '<7'], [True, False], [-1, 2]):
+        for what, m, args in (('format(style, spec)', fm, [spec]), ('str(style)', sm, [])):
+            if what == 'str(style)' and spec:
+                continue
+            st = _style_obj({'bold': True} if fg != -1 else {}, fg, -1, enabled=enabled, fmt=stored)
+            object.__setattr__(st, 'value', 'ab')
+            object.__setattr__(st, '_methods', {'apply_style': asf.node, 'apply': ap.node, '__str__': sm.node})
+            ev = _with_helpers(a, _Ev({'RGB': RGBv}, calls={'format': format}))
+
+            def methods(recv, name, args_, kwargs, st=st, ev=ev):
+                return NotImplemented
+            ev.calls['str'] = lambda x, st=st, ev=ev: ev.call_function(sm.node, [st]) if x is st else str(x)
+            try:
+                out = ev.call_function(m.node, [st, *args])
+            except Unsupported as e:
+                raise AnalysisError(f'cannot interpret Style.{m.name}: {e}') from e
+            eff = spec or stored
+            want_text = format('ab', eff) if eff else 'ab'
+            stripped = ansi.sub('', out)
+            once = out.count('\x1b[0m') <= 1
+            ok = stripped == want_text and (enabled or out == want_text) and once
+            rep.add({'protocol': what, 'spec': spec, 'stored_fmt': stored, 'colour': enabled, 'styled': fg != -1, 'output': out, 'visible': stripped,
+                     'want_visible': want_text, 'ok': ok})
+            if not ok:
+                rep.fail(m.qualname, f'format:{spec!r}:{stored!r}:{enabled}:{fg}', f'{what} with spec {spec!r} on a style holding the text "ab", stored '
+                         f'spec {stored!r}, colour {"on" if enabled else "off"}: output {out!r}, visible {stripped!r}; required visible '
+                         f'{want_text!r} with the escapes applied once (the width of the spec must be measured on the text, not on text '
+                         f'that already carries escape sequences)', m.loc)
     return rep
 
 
